@@ -12,6 +12,7 @@ from typing import (
     Any,
     Awaitable,
     ContextManager,
+    Dict,
     Iterator,
     List,
     Optional,
@@ -43,6 +44,19 @@ def _one_line(text: str) -> str:
     # that spans several lines (numpy arrays, say) would break the tree
     # drawing, so show its line breaks in escaped form instead.
     return text.replace("\r", "\\r").replace("\n", "\\n")
+
+
+def _source_line(
+    filename: str, lineno: int, module_globals: Optional[Dict[str, Any]]
+) -> Optional[str]:
+    # linecache lets through what it doesn't expect: a loader whose
+    # get_source() raises (zipimport on source that isn't UTF-8), a file name
+    # that the operating system won't take (a lone surrogate, a NUL). That
+    # costs us one line of source text, not the whole rendering.
+    try:
+        return linecache.getline(filename, lineno, module_globals)
+    except Exception:
+        return None
 
 
 def _safe_repr(obj: object) -> str:
@@ -303,8 +317,8 @@ class Frame(Formattable):
             # (lineno can be None, not only 0: on 3.10+ f_lineno is None
             # while an instruction without line information executes)
             return ""
-        return linecache.getline(
-            self.filename, self.lineno, self.pyframe.f_globals
+        return (
+            _source_line(self.filename, self.lineno, self.pyframe.f_globals) or ""
         ).strip()
 
     def _format(self, opts: FormatOptions) -> List[str]:
@@ -374,11 +388,18 @@ class Frame(Formattable):
             }
         else:
             save_locals = None
+        unreadable = (
+            self.lineno
+            and _source_line(self.filename, self.lineno, self.pyframe.f_globals) is None
+        )
         return traceback.FrameSummary(
             self.filename,
             self.lineno,
             self.funcname,
             locals=save_locals,
+            # (normally left to the summary to look up when it is asked; but
+            # if the lookup fails, it would fail in there as well)
+            **({"line": ""} if unreadable else {}),
         )
 
     def as_stdlib_summary_with_contexts(
@@ -476,7 +497,9 @@ class Context(Formattable):
         if self.hide and not show_hidden_frames:
             return
         if capture_locals:
-            save_locals = {"<context manager>": self.description or repr(self.obj)}
+            save_locals = {
+                "<context manager>": self.description or _safe_repr(self.obj)
+            }
         else:
             save_locals = None
         info = self._name_and_type()
@@ -485,7 +508,16 @@ class Context(Formattable):
             self.start_line or parent.lineno,
             parent.funcname + (f" ({info})" if info else ""),
             locals=save_locals,
-            line=override_line or ("" if self.start_line is None else None),
+            line=override_line
+            or (
+                ""
+                if self.start_line is None
+                or _source_line(
+                    parent.filename, self.start_line, parent.pyframe.f_globals
+                )
+                is None
+                else None
+            ),
         )
         if self.inner_stack is not None:
             yield from self.inner_stack._frame_summaries(
@@ -519,8 +551,9 @@ class Context(Formattable):
 
         linetext = ""
         if self.start_line is not None and parent is not None:
-            linetext = linecache.getline(
-                parent.filename, self.start_line, parent.pyframe.f_globals
+            linetext = (
+                _source_line(parent.filename, self.start_line, parent.pyframe.f_globals)
+                or ""
             ).strip()
         if not linetext:
             if self.description:
